@@ -142,6 +142,8 @@ struct RModel {
     bool hitD1 = false, hitD2 = false, hitD3 = false, hitD4 = false, hitD5 = false;
     int created = 0;
     int iterFix = 0;
+    bool hitD7 = false;
+    std::vector<int> adoptHint;  // views whose range position after this op is not determined by the recommendation
 
     int add(int type, const std::string& name = "", const std::string& data = "") {
         RNode x; x.type = type; x.name = name; x.data = data;
@@ -289,6 +291,17 @@ struct RModel {
     int splitText(int x, int off) {
         int m = add(T_TEXT, "", n[x].data.substr(off));
         int p = n[x].parent;
+        if (p >= 0) {
+            // A boundary point exactly between the Text node and its next sibling: the generic insertion rule (2.12.1) leaves it
+            // before the new node, later DOM editions move it behind the new node -> position not compared, invariants only.
+            int i1 = idx(x) + 1;
+            for (size_t vi = 0; vi < v.size(); vi++) {
+                RView& w = v[vi];
+                if (w.kind != V_RANGE || w.detached) continue;
+                if ((w.sc == p && w.so == i1) || (w.ec == p && w.eo == i1)) adoptHint.push_back((int)vi);
+                if (w.sc == x && w.so > off && w.ec == p && w.eo == i1) hitD7 = true;
+            }
+        }
         if (p >= 0) insertAt(p, m, idx(x) + 1);
         for (auto& w : v)
             if (w.kind == V_RANGE && !w.detached) {
@@ -564,6 +577,7 @@ struct RModel {
         }
         return s;
     }
+    bool rangeRootIsDocOrFragment(const RView& w) const { int t = n[rootOf(w.sc)].type; return t == T_DOC || t == T_FRAG; }
     bool partiallySelectsNonText(const RView& w) const {
         for (int x = w.sc; x >= 0; x = par(x)) if (!anc(x, w.ec) && !isText(x)) return true;
         for (int x = w.ec; x >= 0; x = par(x)) if (!anc(x, w.sc) && !isText(x)) return true;
